@@ -4,7 +4,7 @@ re-checks — the modules of the functions the property's behaviour is built fro
 import os
 OB = '/verif/lean/obligations'
 USES = {
- 'C01': ['Slice', 'SliceFns', 'Str', 'StrFns', 'Chr', 'Bytes', 'Bytes2', 'BytesTrim', 'Chars', 'SliceIter', 'Split', 'SplitTerm', 'Array', 'CStr', 'SliceIter2'],
+ 'C01': ['Slice', 'SliceFns', 'Str', 'StrFns', 'Chr', 'Bytes', 'Bytes2', 'BytesTrim', 'Chars', 'SliceIter', 'Split', 'SplitTerm', 'Array', 'CStr', 'SliceIter2', 'ProbesArr'],
  'C11': ['Array', 'ProbesArr'],
  'C15': ['Array', 'ProbesArr'],
  'C02': ['Slice', 'SliceFns', 'SliceIter'],
